@@ -236,6 +236,17 @@ def dup_case(ctx, k):
             r0 = climon.run(d, ad["argv"] + ["-o", name] + inputs, tag="first", trace=False)
             if r0.rc != 0:
                 return
+        shape = rng.choice(["two-record-outputs", "two-record-outputs", "record-and-text", "pair-same-file", "pair-shared-first-file"])
+        ctx.count("duplicate_path_shape:" + shape)
+        if shape == "record-and-text":
+            extra = [rng.choice(["--info-file", "--rest-file"]), name]
+        elif shape == "pair-same-file":
+            # both mates into one path (not interleaved): -o X -p X
+            extra = ["-p", name]
+            inputs = inputs + inputs
+        elif shape == "pair-shared-first-file":
+            extra = ["-m", "12", "--too-short-output", name, "--too-short-paired-output", "ts2.fastq", "-p", "o2.fastq"]
+            inputs = inputs + inputs
         argv = ad["argv"] + extra + ["-o", name, "--json", "rep.json"] + (["-j", "2"] if rng.random() < 0.3 else []) + inputs
         run = climon.run(d, argv, tag="dup", trace=False)
         ctx.count("duplicate_path_runs")
@@ -247,7 +258,10 @@ def dup_case(ctx, k):
             return
         fo = run.records(name)
         ids = sorted(fastx.rid(x[0]) for x in fo[1]) if fo and fo[0] != "error" else None
-        if ids != sorted(fastx.rid(r[0]) for r in recs):
+        want = sorted(fastx.rid(r[0]) for r in recs)
+        if shape == "pair-same-file":
+            want = sorted(want + want)    # both mates of every pair
+        if ids != want:
             ctx.violation("duplicate-path-clobbered", f"the path {name} was accepted for two outputs (file existed before: {preexisting}); exit 0, report says "
                           f"{run.json_report()['read_counts']}, but the file holds {None if ids is None else len(ids)} parseable records of {len(recs)} reads; argv={argv}",
                           case, facts=dict(preexisting=preexisting))
